@@ -352,6 +352,19 @@ def run(ctx):
         ctx.check(bool(cur) and bad is None, "R14.19", uid, f"re-registration after arguments {list(first)}", msg=f"task.add_done_callback(t, f, {', '.join(first) or '<none>'}) then (t, f, 'B'): {bad or 'no exit'}",
                   key=f"re-registration {first}", node=program.func(uid), rel="function.py")
 
+    ctx.rule("R14.20", "legacy runs that are started by the waiter (the shutdown occurrence: Function.waiter_await -> create_task without an evaluator) have a done-callback "
+             "table too: the run's coroutine registers its evaluator for the current task before the function body, so task.add_done_callback(task.current_task(), ...) works in it", floor=1)
+    uid = "trigger.py::TrigInfo.call_action.do_func_call"
+    f = program.func(uid)
+    names = [call_name(n) for n in body_walk(f) if isinstance(n, ast.Call)]
+    body_call = next((i for i, nm in enumerate(names) if nm and nm.endswith(".call_func")), None)
+    waiter_plain = any(isinstance(n, ast.Call) and call_name(n) == "cls.create_task" and len(n.args) == 1 and not n.keywords for n in body_walk(program.func("function.py::Function.init.task_waiter")))
+    reg = [i for i, nm in enumerate(names) if nm == "Function.task_done_callback_ctx"]
+    ctx.check(body_call is not None and (not waiter_plain or (reg and reg[0] < body_call)), "R14.20", uid, "the run registers its evaluator for its own task",
+              msg=f"{uid}: the waiter starts shutdown runs with create_task(coro) (no evaluator) and the run's coroutine does not register one either (calls: {names}): the task has no "
+              "done-callback table - task.add_done_callback(task.current_task(), cb) in a @time_trigger('shutdown') function raises KeyError, and no callback runs when it ends",
+              key="legacy shutdown run callback table", node=f, rel="trigger.py")
+
     ctx.rule("R14.8", "the reaper and waiter service loops survive a failing command: after any exception of one iteration the next command is still taken from the queue", floor=2)
     for uid, q in (("function.py::Function.init.task_reaper", "reaper_q.get"), ("function.py::Function.init.task_waiter", "waiter_q.get")):
         pol = _ServiceLoopPolicy(program, may_raise_all=True, cancel=False, events=[q], record_atoms=False, no_raise={q})
